@@ -1,4 +1,5 @@
 import NflowsModel.Audit.Tool
 import NflowsModel.Properties.C20
+import NflowsModel.Properties.C20D
 
 #audit_namespace Properties.C20
